@@ -51,6 +51,21 @@ func bigCases() []core.Case {
 	outer := bigFV(true, &hu.File{Kind: "fs", GUID: guidN(5), Type: 0x0B, Attrs: 0x40, State: 0xF8,
 		Secs: []*hu.Sec{{Kind: "su", Name: []rune("Nested")}, {Kind: "sf", FV: inner}}})
 	cs = append(cs, imgCase("wf-big-nested", single(outer), "1"))
+	// two volumes: an FFSv3 volume with a rebuilt file above 16 MiB, padding with data, then a small FFSv2
+	// volume with a file — what the large file tells its own volume (Assemble.useFFS3) must not reach the
+	// next one (seeded defects c01-5 / c03-3); and the other order
+	bigFF := &hu.File{Kind: "fs", GUID: guidN(7), Type: 2, Attrs: 0x40, State: 0xF8,
+		Secs: []*hu.Sec{{Kind: "sl", Type: 0x19, Ext: true, Body: make([]byte, 0x1000020)}, {Kind: "sl", Type: 0x19, Body: []byte{1, 2, 3}}}}
+	small := func(n byte) *hu.FV {
+		return bigFV(false, &hu.File{Kind: "fs", GUID: guidN(n), Type: 7, Attrs: 0x40, State: 0xF8,
+			Secs: []*hu.Sec{{Kind: "sl", Type: 0x19, Body: []byte{n, 2, 3, 4, 5}}, {Kind: "su", Name: []rune("Small")}}})
+	}
+	gap := make([]byte, 48)
+	for i := range gap {
+		gap[i] = 0x5A
+	}
+	cs = append(cs, imgCase("wf-big-ffs3-then-ffs2", &hu.Img{Bios: &hu.Bios{Items: []hu.Item{{FV: bigFV(true, bigFF)}, {Pad: gap, FV: small(8)}}}}, "1"))
+	cs = append(cs, imgCase("wf-big-ffs2-then-ffs3", &hu.Img{Bios: &hu.Bios{Items: []hu.Item{{FV: small(9)}, {Pad: gap, FV: bigFV(true, bigFF)}, {Pad: gap, FV: small(10)}}}}, "1"))
 	return cs
 }
 
